@@ -284,6 +284,7 @@ def run(F, res, tier):
     unknowns_unify_by_value(F, res)
     group_members_share_one_counter(F, res)
     naming_state_is_per_function(F, res)
+    declared_types_are_read_in_their_own_module(F, res)
 
 
 def resolver_swaps(F, res, rule="Y4"):
@@ -647,3 +648,46 @@ def naming_state_is_per_function(F, res, rule="Y9"):
                 sorted((c, sorted(wr)) for c, wr in resets.values()), sorted(state))
     res.ob(rule, "finish_infer/fresh-naming-per-function", "every function of a group is frozen with naming state and memo of its own (all fields "
            "Collector::collect writes: %s)" % sorted(state), ok and bool(state), where=fi.loc(), how=how)
+
+
+def declared_types_are_read_in_their_own_module(F, res, rule="Y10"):
+    """Y10: a declaration spells its types as its own module sees them. Wherever the inferencer instantiates the declared type of a
+    *field* (hir::Field::ty) - reading `value.field`, applying a constructor - the InferCtx resolver has been swapped to the
+    top-level resolver of the module that declares the record: the make_ty_from_typeref call is dominated by a
+    mem::replace(&mut self.resolver, ..) whose new value depends on lookup_intern_adt (the record's location). Otherwise a type of
+    the same name in the reading module is taken (`n.inner.` offered the fields of the local `Pt`), or the field has no type at all
+    and everything behind it - `o.inner.name`, its references, its completions - is lost. (The restore is Y4's business.)"""
+    IC = "ide::ty::infer::InferCtx::"
+    n, bad = 0, []
+    for p_, f in sorted(F.fns.items()):
+        if not p_.startswith(IC) or not f.blocks:
+            continue
+        base = F.fns.get(p_.split("::{closure")[0], f)
+        d = FL.Defs(f)
+        for b, t in f.calls():
+            if (callee(t) or "") != IC + "make_ty_from_typeref" or len(t["args"]) < 2:
+                continue
+            dep = FL.depends(F, f, d, t["args"][1], use_bb=b)
+            if not any(c.endswith("hir::Field::ty") or c.endswith("Field::ty") for c in dep["calls"]):
+                continue
+            n += 1
+            # the swap: in this unit, or - for a closure - in the function it belongs to, before the closure is created
+            ok = False
+            units = [(f, d, [b])]
+            if f.kind == "Closure":
+                par = F.fns.get(f.d.get("direct_parent"))
+                if par is not None:
+                    cl = [b2 for b2, i2, s2 in par.stmts() if (s2.get("rv") or {}).get("closure") == f.path]
+                    units.append((par, FL.Defs(par), cl))
+            for u, du, targets in units:
+                for b2, t2 in u.calls():
+                    if FL.short(callee(t2) or callee_def(t2) or "").endswith("mem::replace") and \
+                            "resolver" in {str(x) for x in FL.fields_feeding(F, u, du, t2["args"][0], "InferCtx")}:
+                        dv = FL.depends(F, u, du, t2["args"][1], use_bb=b2)
+                        if any(c.endswith("lookup_intern_adt") for c in dv["calls"]) and any(c.endswith("resolver_for_toplevel") for c in dv["calls"]) \
+                                and all(u.dominates(b2, x) and b2 != x for x in targets):
+                            ok = True
+            if not ok:
+                bad.append("%s line %d" % (FL.short(p_), t["ln"]))
+    res.ob(rule, "field-types/declaring-module", "the declared type of a field is instantiated with the resolver of the module that declares the record",
+           n >= 2 and not bad, where="crates/ide/src/ty/infer.rs", how="instantiations of a field's declared type: %d; not under a swap to the record's module: %s" % (n, bad))
